@@ -502,5 +502,21 @@ ITEMS = location_types() + budget_types() + error_types() + [
          proofs=[dict(before='let mut replay = ReplayEvents::with_reference(events, reference_location);', ghost=True, text='let ghost ev0 = events@;'),
                  dict(after='let mut replay = ReplayEvents::with_reference(events, reference_location);', text='assert(replay.rest() =~= ev0); assert(ev0.skip(0) =~= ev0);')],
          canaries=['C05:a_value_is_only_handed_out_after_its_key', 'C05:each_key_is_paired_with_exactly_one_value']),
+    dict(src=D, path='impl de::Deserializer for YamlDeserializer/fn deserialize_map', id='YamlDeserializer::deserialize_map#prologue',
+        impl_header="impl<'de, 'e> YamlDeserializer<'de, 'e>", props=['C05', 'C03', 'C04', 'C01'], lift_nested_fns=True,
+        pre_rewrites=[(r"fn deserialize_map<V: Visitor<'de>>\(mut self, visitor: V\) -> Result<V::Value, Self::Error>",
+                       'fn deserialize_map_prologue(mut self, visitor: MapVis) -> Result<MapVisVal, Error>', 1, 'R9')],
+        rewrites=[(r'tag == &SfTag::Null', '*tag == SfTag::Null', None, 'R15'),
+                  (r'scalar_is_nullish\(s, style\)', 'scalar_is_nullish(s.as_str(), style)', None, 'R15'),
+                  (r'return visitor\.visit_map\(EmptyMap\);', 'return visit_map_empty(visitor);', 1, 'R8'),
+                  (r'visitor\.visit_map\(MA \{', 'visit_map_ma(visitor, MA {', 1, 'R8'),
+                  (r'FastHashSet::with_capacity\(8\)', 'fast_hash_set_with_capacity(8)', 1, 'R8')],
+        requires=[('stream_below_2g_events', 'old(self.ev).rest().len() <= i32::MAX')],
+        proofs=[dict(at='start', ghost=True, text='let ghost rest0 = self.ev.rest();')],
+        ensures=[('C05:a_null_like_scalar_is_an_empty_mapping_anything_else_must_start_a_mapping', '''({ let rest0 = old(self.ev).rest();
+                r is Ok ==> rest0.len() > 0 && (
+                    if rest0[0] is Scalar { (rest0[0]->Scalar_tag is Null || spec_nullish(rest0[0]->Scalar_value@, rest0[0]->Scalar_style)) && r == vis_map_empty(visitor) }
+                    else { rest0[0] is MapStart && r == vis_map_live(visitor, rest0.skip(1), self.cfg) }) })''')],
+        canaries=['C05:a_null_like_scalar_is_an_empty_mapping_anything_else_must_start_a_mapping']),
 ]
 ITEMS = [x for x in ITEMS if x is not None]
